@@ -620,4 +620,159 @@ theorem sameLength_of_length (m : Nat) (vs : List (List Rat)) (h : ∀ v ∈ vs,
     intro w hw
     rw [h w (by simp [hw]), h v (by simp)]
 
+/-! ### when can `ExhaustedFailures` be raised? -/
+
+theorem mergeScaled_good_length :
+    ∀ (yi : List Y) (sc : List Rat) (ys : List (Option (List Rat))), mergeScaled yi sc = some ys →
+      (ys.filterMap id).length = countOk yi
+  | [], [], ys, h => by simp [mergeScaled] at h; subst h; rfl
+  | [], _ :: _, ys, h => by simp [mergeScaled] at h
+  | .fail :: r, s, ys, h => by
+    simp only [mergeScaled, Option.map_eq_some_iff] at h
+    obtain ⟨ys', h', rfl⟩ := h
+    have := mergeScaled_good_length r s ys' h'
+    simpa [countOk, isOk] using this
+  | .val x :: r, [], ys, h => by simp [mergeScaled] at h
+  | .vec x :: r, [], ys, h => by simp [mergeScaled] at h
+  | .val x :: r, q :: s, ys, h => by
+    simp only [mergeScaled, Option.map_eq_some_iff] at h
+    obtain ⟨ys', h', rfl⟩ := h
+    have := mergeScaled_good_length r s ys' h'
+    simp only [countOk] at this
+    simp [countOk, List.filter_cons, isOk, this]
+  | .vec x :: r, q :: s, ys, h => by
+    simp only [mergeScaled, Option.map_eq_some_iff] at h
+    obtain ⟨ys', h', rfl⟩ := h
+    have := mergeScaled_good_length r s ys' h'
+    simp only [countOk] at this
+    simp [countOk, List.filter_cons, isOk, this]
+
+/-- `ExhaustedFailures` at a fit means: not a single non-failed entry in the history, at least
+`max_failures` entries, and a policy that imputes -/
+theorem fitInput_exhausted (p : Policy) (mf : Nat) (yi : List Y) (sc : List Rat)
+    (h : fitInput p mf yi sc = .error .exhausted) : countOk yi = 0 ∧ mf ≤ yi.length ∧ p ≠ .ignore := by
+  unfold fitInput at h
+  split at h
+  · cases h
+  · cases hm : mergeScaled yi sc with
+    | none => simp [hm] at h
+    | some ys =>
+      simp only [hm] at h
+      obtain ⟨hs, hlen, _⟩ := mergeScaled_spec yi sc ys hm
+      have hgl := mergeScaled_good_length yi sc ys hm
+      rcases filterFailures_single p mf ys hs with ⟨zs, hz, _⟩ | ⟨he, hmf, hnil⟩
+      · rw [hz] at h
+        simp only at h
+        split at h <;> cases h
+      · refine ⟨by rw [← hgl, hnil]; rfl, by omega, ?_⟩
+        intro hp; subst hp; simp [filterFailures] at he
+
+theorem countOk_append (a b : List Y) : countOk (a ++ b) = countOk a + countOk b := by
+  simp [countOk, List.filter_append]
+
+/-- `_n_initial_points` = initial value minus the number of non-failed results told -/
+def NInitInv (n0 : Int) (st : Opt) : Prop := st.nInit = n0 - (countOk st.yi : Int)
+
+theorem searchTell_unfold (p : Policy) (mf : Nat) (st : Opt) (objs : List Val) (sc : List Rat)
+    (y : Y) (r : List Y) (hc : cboTell p objs = .ok (y :: r)) :
+    searchTell p mf st objs sc =
+      (if st.nInit - (countOk (y :: r) : Int) ≤ 0 then
+        match fitInput p mf (st.yi ++ y :: r) sc with
+        | .error e => .error (.inr e)
+        | .ok out => .ok (⟨st.nInit - countOk (y :: r), st.yi ++ y :: r⟩, some out)
+       else .ok (⟨st.nInit - countOk (y :: r), st.yi ++ y :: r⟩, none)) := by
+  unfold searchTell
+  simp only [hc, optTell]
+  by_cases hle : st.nInit - (countOk (y :: r) : Int) ≤ 0
+  · simp only [hle, if_true]
+    cases fitInput p mf (st.yi ++ y :: r) sc <;> rfl
+  · simp only [hle, if_false]
+
+theorem searchTell_ninit (p : Policy) (mf : Nat) (n0 : Int) (st st' : Opt) (objs : List Val)
+    (sc : List Rat) (fit : Option (List Rat)) (hinv : NInitInv n0 st)
+    (h : searchTell p mf st objs sc = .ok (st', fit)) : NInitInv n0 st' := by
+  cases hc : cboTell p objs with
+  | error e => unfold searchTell at h; simp [hc] at h
+  | ok ys =>
+    cases ys with
+    | nil => unfold searchTell at h; simp [hc] at h; obtain ⟨rfl, _⟩ := h; exact hinv
+    | cons y r =>
+      rw [searchTell_unfold p mf st objs sc y r hc] at h
+      have key : NInitInv n0 ⟨st.nInit - countOk (y :: r), st.yi ++ (y :: r)⟩ := by
+        unfold NInitInv at hinv ⊢
+        simp only [countOk_append, hinv]
+        omega
+      by_cases hle : st.nInit - (countOk (y :: r) : Int) ≤ 0
+      · simp only [hle, if_true] at h
+        cases hf : fitInput p mf (st.yi ++ y :: r) sc with
+        | error e => simp [hf] at h
+        | ok out => simp only [hf, Except.ok.injEq, Prod.mk.injEq] at h; obtain ⟨rfl, _⟩ := h; exact key
+      · simp only [hle, if_false, Except.ok.injEq, Prod.mk.injEq] at h; obtain ⟨rfl, _⟩ := h; exact key
+
+/-- with `n_initial_points ≥ 1` a tell never raises `ExhaustedFailures`: a fit needs
+`_n_initial_points ≤ 0`, i.e. at least one non-failed result, and then there is something to
+impute from -/
+theorem searchTell_not_exhausted (p : Policy) (mf : Nat) (n0 : Int) (hn0 : 1 ≤ n0) (st : Opt)
+    (objs : List Val) (sc : List Rat) (hinv : NInitInv n0 st) :
+    searchTell p mf st objs sc ≠ .error (.inr .exhausted) := by
+  intro h
+  cases hc : cboTell p objs with
+  | error e => unfold searchTell at h; simp [hc] at h
+  | ok ys =>
+    cases ys with
+    | nil => unfold searchTell at h; simp [hc] at h
+    | cons y r =>
+      rw [searchTell_unfold p mf st objs sc y r hc] at h
+      by_cases hle : st.nInit - (countOk (y :: r) : Int) ≤ 0
+      · simp only [hle, if_true] at h
+        cases hf : fitInput p mf (st.yi ++ y :: r) sc with
+        | ok out => simp [hf] at h
+        | error e =>
+          simp only [hf, Except.error.injEq, Sum.inr.injEq] at h
+          subst h
+          obtain ⟨h0, _, _⟩ := fitInput_exhausted p mf _ sc hf
+          unfold NInitInv at hinv
+          rw [countOk_append] at h0
+          have h1 : countOk (y :: r) = 0 := by omega
+          have h2 : countOk st.yi = 0 := by omega
+          simp only [h1, hinv, h2] at hle
+          omega
+      · simp [hle] at h
+
+theorem runTells_not_exhausted (p : Policy) (mf : Nat) (n0 : Int) (hn0 : 1 ≤ n0) :
+    ∀ (bs : List (List Val × List Rat)) (st : Opt), NInitInv n0 st →
+      runTells p mf st bs ≠ .error (.inr .exhausted)
+  | [], st, _ => by simp [runTells]
+  | (objs, sc) :: rest, st, hinv => by
+    simp only [runTells]
+    cases hs : searchTell p mf st objs sc with
+    | error e =>
+      intro h
+      simp only [Except.error.injEq] at h
+      subst h
+      exact searchTell_not_exhausted p mf n0 hn0 st objs sc hinv hs
+    | ok r =>
+      obtain ⟨st', fit⟩ := r
+      dsimp only
+      have ih := runTells_not_exhausted p mf n0 hn0 rest st' (searchTell_ninit p mf n0 st st' objs sc fit hinv hs)
+      cases hr : runTells p mf st' rest with
+      | error e => rw [hr] at ih; simpa using ih
+      | ok r' => simp
+
+/-- a batch of failure labels is told as that many `"F"` markers (policy mean / max) -/
+theorem cboTell_all_fail (p : Policy) (hp : p ≠ .ignore) :
+    ∀ (objs : List Val), (∀ o ∈ objs, ∃ s, o = Val.str s ∧ firstIsF s = true) →
+      cboTell p objs = .ok (objs.map (fun _ => Y.fail))
+  | [], _ => rfl
+  | o :: r, h => by
+    obtain ⟨s, rfl, hs⟩ := h o (by simp)
+    have ih := cboTell_all_fail p hp r (fun o' ho' => h o' (by simp [ho']))
+    have hne := firstIsF_ne_empty s hs
+    have hf : failOut p = some Y.fail := by simp [failOut, hp]
+    simp [cboTell, cboTellOne, hne, hs, hf, ih]
+
+theorem mergeScaled_all_fail : ∀ (n : Nat), mergeScaled (List.replicate n Y.fail) [] = some (List.replicate n none)
+  | 0 => rfl
+  | n + 1 => by simp [List.replicate_succ, mergeScaled, mergeScaled_all_fail n]
+
 end DH.Failures
